@@ -390,6 +390,8 @@ def run_updown(ev, state, coords, job):
     state = {'state': state,
              'orography': gen.random_modal(rs, g, (), amp=1.0, clip_top=False),
              'frames': np.stack([first3d, first3d * 0.5])}
+    # canonical dtypes (float32 when x64 is off) before the round trip
+    state = jax.tree_util.tree_map(jnp.asarray, state)
     su = up(state)
     want_shape = tuple(fine_grid.modal_shape)
     for leaf in jax.tree_util.tree_leaves(su):
